@@ -111,6 +111,8 @@ def plan(tier, seed):
             items.append({"variant": [v[0], v[1], v[2], v[3]], "fraction": f})
     for n in (130, 200, 257, 300):
         items.append({"large": n, "fraction": 0.25})
+    for v in parents(tier)[:3]:
+        items.append({"variant": [v[0], v[1], v[2], v[3]], "fraction": 0.5, "supplied": True})
     ps = parents(tier)
     for ci, cfg in enumerate(CLI_CONFIGS):
         for pi in range(2 if tier == "quick" else 6):
@@ -357,6 +359,21 @@ def prepare(item, chooser, tmpdir=None):
     v = item["variant"]
     parent = make_screen(_parent_rows((v[0], v[1], v[2], v[3])), control=v[0])
     rng = ScriptedGenerator(chooser)
+    if item.get("supplied"):
+        # the prepared screen was built from mapping arrays the CALLER owns (its registry of samples / conditions); after the
+        # split the caller goes on using them - renumbers, renames.  Every later stage still assigns the original ids.
+        tm2 = tuple(np.array(a, copy=True) for a in parent.treatment_mapping)
+        sm2 = tuple(np.array(a, copy=True) for a in parent.sample_mapping)
+        owned = make_screen(_parent_rows((v[0], v[1], v[2], v[3])), control=v[0], treatment_mapping=tm2, sample_mapping=sm2)
+        train, test = R.create_plate_balanced_holdout_set_among_masked_plates(owned, item["fraction"], rng)
+        for a in tm2 + sm2:
+            if a.dtype.kind in "iu":
+                a[...] = a[::-1].copy()
+            elif a.dtype.kind == "f":
+                a *= 2.0
+            elif a.size:
+                a[...] = np.roll(a, 1)
+        return parent, train, test
     train, test = R.create_plate_balanced_holdout_set_among_masked_plates(parent, item["fraction"], rng)
     return parent, train, test
 
